@@ -1047,6 +1047,45 @@ pub fn search_authmut(out: &mut Vec<Finding>) {
     }
 }
 
+
+/// C15: relativisation round trip (probe: `all` lists every failing pair)
+pub fn search_relative(out: &mut Vec<Finding>, all: bool) {
+    let uris: Vec<Vec<u8>> = strings(b"s:/a.?#", 6).into_iter().filter(|s| uri::Uri::new(s).is_ok() && s.starts_with(b"s:")).collect();
+    let mut n = 0usize;
+    let mut bad = 0usize;
+    for a in &uris {
+        for b in &uris {
+            n += 1;
+            let (a2, b2) = (a.clone(), b.clone());
+            let r = guarded(move || {
+                let x = uri::Uri::new(&a2).unwrap();
+                let y = uri::Uri::new(&b2).unwrap();
+                let rel = x.relative_to(y);
+                let valid = uri::UriRef::new(rel.as_bytes()).is_ok();
+                let back = rel.resolved(y);
+                (rel.as_bytes().to_vec(), valid, back.as_bytes().to_vec(), *back.as_uri() == *x)
+            });
+            let fail = match &r {
+                None => true,
+                Some((_, valid, _, same)) => !valid || !same,
+            };
+            if fail {
+                bad += 1;
+                if out.is_empty() || all {
+                    let (real, exp) = match r {
+                        None => ("panic".to_string(), "no panic".to_string()),
+                        Some((rel, valid, back, _)) => (format!("relative = {:?} (valid: {}), resolved against the base = {:?}", lossy(&rel), valid, lossy(&back)), format!("a reference that resolves to something equal to {:?}", lossy(a))),
+                    };
+                    out.push(Finding { what: "relative_to does not round-trip through resolution".into(), inputs: vec![a.clone(), b.clone()], real, expected: exp });
+                }
+            }
+        }
+    }
+    if all {
+        eprintln!("pairs {} failing {}", n, bad);
+    }
+}
+
 pub fn search(prop: &str) -> Vec<Finding> {
     let mut out = vec![];
     match prop {
@@ -1071,6 +1110,8 @@ pub fn search(prop: &str) -> Vec<Finding> {
         "C05" => search_setters(&mut out),
         "C10" => search_pathops(&mut out, false),
         "C11" => search_authmut(&mut out),
+        "C15" => search_relative(&mut out, false),
+        "C15all" => search_relative(&mut out, true),
         "C04" => {
             search_setters(&mut out);
             if out.is_empty() {
